@@ -43,22 +43,40 @@ ActionAt(op, k) == IF k = 3 THEN LeafAction(op)
 VARIABLES sc, phase, linkOnDisk, scanSawLink, failed, escaped
 vars == <<sc, phase, linkOnDisk, scanSawLink, failed, escaped>>
 
-Init == /\ sc \in Scenarios /\ phase = "new" /\ linkOnDisk = FALSE /\ scanSawLink = FALSE
+\* Store.Initialize on first use: Mkdir(root); on EEXIST lstat it (no follow) and
+\* require a directory, then list it and require every prefix-named entry to be a
+\* directory (the listing's entry type, never followed). Allocate / Commit / Finalize
+\* then work below that path. Follow: what if the existing root were stat'ed.
+StagingInit(pre) ==
+  CASE pre = "absent" -> [fail |-> FALSE, escaped |-> FALSE]
+    [] pre = "dir" -> [fail |-> FALSE, escaped |-> FALSE]
+    [] pre = "prefix_link" -> [fail |-> TRUE, escaped |-> FALSE]
+    [] pre = "file" -> [fail |-> TRUE, escaped |-> FALSE]
+    [] pre = "link_out" -> [fail |-> ~Follow, escaped |-> Follow]       \* followed: lists, creates and renames outside
+    [] pre = "link_in" -> [fail |-> ~Follow, escaped |-> FALSE]         \* followed: stages into some in-root directory
+    [] OTHER -> [fail |-> TRUE, escaped |-> FALSE]                      \* link to a file, dangling link
+
+Init == /\ sc \in Scenarios \cup StagingScenarios /\ phase = "new" /\ linkOnDisk = FALSE /\ scanSawLink = FALSE
         /\ failed = FALSE /\ escaped = FALSE
 
 PlaceStatic == /\ phase = "new"
-               /\ linkOnDisk' = (sc.pos >= 0 /\ sc.moment = "static")
+               /\ linkOnDisk' = IF IsStaging(sc) THEN sc.pre \notin {"absent", "dir"}
+                                 ELSE (sc.pos >= 0 /\ sc.moment = "static")
                /\ phase' = "placed" /\ UNCHANGED <<sc, scanSawLink, failed, escaped>>
 \* every case scans first (the endpoint insists); the scan of a static link is itself a visit
 ScanFirst == /\ phase = "placed"
              /\ scanSawLink' = linkOnDisk
-             /\ escaped' = (linkOnDisk /\ sc.op # "scan" /\ Visit(IF sc.pos = 0 THEN "opendir" ELSE "list", sc.kind).escaped)
+             /\ escaped' = IF IsStaging(sc) THEN FALSE    \* scans skip the staging root by its temporary-name prefix
+                           ELSE (linkOnDisk /\ sc.op # "scan" /\ Visit(IF sc.pos = 0 THEN "opendir" ELSE "list", sc.kind).escaped)
              /\ phase' = "scanned" /\ UNCHANGED <<sc, linkOnDisk, failed>>
 ReplaceByLink == /\ phase = "scanned"
-                 /\ linkOnDisk' = (linkOnDisk \/ (sc.pos >= 0 /\ sc.moment \in {"swap", "mid"}))
+                 /\ linkOnDisk' = IF IsStaging(sc) THEN linkOnDisk
+                                   ELSE (linkOnDisk \/ (sc.pos >= 0 /\ sc.moment \in {"swap", "mid"}))
                  /\ phase' = "ready" /\ UNCHANGED <<sc, scanSawLink, failed, escaped>>
 RunOp == /\ phase = "ready"
-         /\ IF linkOnDisk
+         /\ IF IsStaging(sc)
+            THEN LET v == StagingInit(sc.pre) IN failed' = v.fail /\ escaped' = (escaped \/ v.escaped)
+            ELSE IF linkOnDisk
             THEN LET v == Visit(ActionAt(sc.op, sc.pos), sc.kind) IN
                  /\ failed' = v.fail
                  /\ escaped' = (escaped \/ v.escaped)
@@ -71,6 +89,7 @@ Spec == Init /\ [][Next]_vars
 \* the model-level statement of C17
 Contained == ~escaped
 CrossingFails == (phase = "done" /\ linkOnDisk /\ sc.op # "scan") => failed
+StagingRootRefused == (phase = "done" /\ IsStaging(sc)) => (failed <=> sc.pre \notin {"absent", "dir"})
 \* which scenarios would escape if links were followed (reported with Follow = TRUE)
 Teeth == phase = "done" => ~escaped
 ====
